@@ -267,8 +267,11 @@ def _drop_dangling_else(group, prev_code_line):
     return group[:k] + group[e:]
 
 
-def weave_region(region, golden_lines, current_lines):
-    """returns list of (text, kind, origin) with kind in {'code','contract'}"""
+def weave_region(region, golden_lines, current_lines, drop_level=0):
+    """returns list of (text, kind, origin) with kind in {'code','contract'}.
+    drop_level (changed regions only, used after a front-end rejection of the plain weave):
+      1 = drop contract groups inside the fn body whose neighbouring code line changed (stale loop invariants / proof hints);
+      2 = drop every contract group inside the fn body, keeping the function's requires/ensures."""
     ann = [t for t, _ in region.lines]
     idx = embed(golden_lines, ann)
     if idx is None:
@@ -292,13 +295,29 @@ def weave_region(region, golden_lines, current_lines):
                 for d in range(i2 - i1):
                     eq_map[i1 + d] = j1 + d
     by_pos = {}
+    # the fn body starts at the first golden line that is a lone `{` (rule R13)
+    body_open = None
+    for k0, gl in enumerate(golden_lines):
+        if gl.strip() == '{':
+            body_open = k0
+            break
+    dropped = 0
     for k, g in enumerate(groups):
         if g:
             if changed:
                 # an inserted `else { .. }` must still directly follow the closing brace it was written after
                 prev_ok = k > 0 and eq_map.get(k - 1) == pos[k] - 1
+                next_ok = k < len(golden_lines) and eq_map.get(k) == pos[k]
                 g = _drop_dangling_else(g, '}' if prev_ok else '')
+                in_body = body_open is not None and k > body_open
+                if in_body and drop_level >= 2:
+                    dropped += 1
+                    continue
+                if in_body and drop_level == 1 and not (prev_ok and next_ok):
+                    dropped += 1
+                    continue
             by_pos.setdefault(pos[k], []).extend(g)
+    region.dropped_groups = dropped
     out = []
     for j, line in enumerate(current_lines):
         grp = by_pos.get(j, [])
@@ -313,8 +332,10 @@ def weave_region(region, golden_lines, current_lines):
 class Woven:
     """the generated Verus file for one unit on the current tree"""
 
-    def __init__(self, unit, repo=None):
+    def __init__(self, unit, repo=None, drop_level=0):
         self.unit = unit
+        self.drop_level = drop_level
+        self.dropped_groups = 0
         self.lines = []      # text
         self.kind = []       # 'contract' | 'code' | 'directive'
         self.origin = []
@@ -368,7 +389,8 @@ class Woven:
             g = golden.get(region.key)
             if g is None:
                 raise WeaveError('no golden extraction for region %s (run `vf golden %s`)' % (region.key, unit.name))
-            woven = weave_region(region, g['lines'], cur_lines)
+            woven = weave_region(region, g['lines'], cur_lines, drop_level)
+            self.dropped_groups += getattr(region, 'dropped_groups', 0)
             for (t, kind, origin) in woven:
                 emit(t, kind, origin)
             cur, cur_label = None, ''
